@@ -109,6 +109,68 @@ theorem C14_filechunks_lengths (tbl : List FileEnt) (o l : Int)
   have := (C14_filechunks_partition tbl o l hL ho hl he).sum
   omega
 
+/-! #### which files are padding is decided by the attribute alone -/
+
+/-- the file table MetadataComplete builds from the `(length, attr)` entries of the metainfo
+    (paths play no part in it) -/
+def mkTable : Int → List (Int × String) → List FileEnt
+  | _, [] => []
+  | b, x :: r => mkFileEnt b x.1 x.2 :: mkTable (b + x.1) r
+
+theorem mkTable_laid : ∀ (specs : List (Int × String)) (b : Int), (∀ x ∈ specs, 0 ≤ x.1) →
+    Laid b (mkTable b specs) := by
+  intro specs
+  induction specs with
+  | nil => intro _ _; trivial
+  | cons x r ih =>
+    intro b h
+    exact ⟨rfl, h x (List.mem_cons_self ..), ih _ (fun y hy => h y (List.mem_cons_of_mem _ hy))⟩
+
+theorem mkTable_get : ∀ (specs : List (Int × String)) (b : Int) (i : Nat) (f : FileEnt),
+    (mkTable b specs)[i]? = some f → ∃ x, specs[i]? = some x ∧ f.pad = padOfAttr x.2 ∧ f.length = x.1 := by
+  intro specs
+  induction specs with
+  | nil => intro b i f h; simp [mkTable] at h
+  | cons x r ih =>
+    intro b i f h
+    cases i with
+    | zero =>
+      simp only [mkTable, List.getElem?_cons_zero, Option.some.injEq] at h
+      subst h
+      exact ⟨x, rfl, rfl, rfl⟩
+    | succ i =>
+      simp only [mkTable, List.getElem?_cons_succ] at h
+      simpa using ih _ i f h
+
+theorem Tiles.mem {tbl : List FileEnt} : ∀ {cs : List FileChunk} {lo : Nat} {a b : Int},
+    Tiles tbl lo a b cs → ∀ fc ∈ cs, ∃ a', ChunkAt tbl fc a' := by
+  intro cs
+  induction cs with
+  | nil => intro lo a b _ fc hfc; simp at hfc
+  | cons c r ih =>
+    intro lo a b h fc hfc
+    rcases List.mem_cons.1 hfc with rfl | hfc
+    · exact ⟨a, h.2.1⟩
+    · exact ih h.2.2 fc hfc
+
+/-- **Padding is decided by the attribute only.**  For every metainfo file list (lengths and
+    attribute strings; the paths do not even enter the model) and every range inside the torrent,
+    each chunk `fileChunks` yields is flagged as padding exactly when the attribute of the file it
+    names contains `p` — so only such ranges are zero-filled by webseedGR, every other one is
+    requested from the web seed, whatever the files are called. -/
+theorem C14_padding_by_attr_only (specs : List (Int × String)) (o l : Int)
+    (hlen : ∀ x ∈ specs, 0 ≤ x.1) (ho : 0 ≤ o) (hl : 0 < l)
+    (he : o + l ≤ tableEnd 0 (mkTable 0 specs)) :
+    ∀ fc ∈ fileChunksLoop (mkTable 0 specs) 0 o l,
+      ∃ x, specs[fc.idx]? = some x ∧ fc.pad = padOfAttr x.2 ∧ fc.filelength = x.1 := by
+  intro fc hfc
+  have ht := C14_filechunks_partition (mkTable 0 specs) o l (mkTable_laid specs 0 hlen) ho hl he
+  obtain ⟨a', f, hget, hfl, hpad, _⟩ := ht.mem fc hfc
+  obtain ⟨x, hx, hp, hlx⟩ := mkTable_get specs 0 fc.idx f hget
+  exact ⟨x, hx, by rw [hpad, hp], by rw [hfl, hlx]⟩
+
+example : padOfAttr "xp" = true ∧ padOfAttr "h" = false ∧ padOfAttr "" = false := by decide
+
 /-! non-vacuity: a table with an empty file and a padding file; the range spans all three -/
 example : Laid 0 [⟨0, 10, false⟩, ⟨10, 0, false⟩, ⟨10, 20, true⟩] := by simp [Laid]
 example : fileChunksLoop [⟨0, 10, false⟩, ⟨10, 0, false⟩, ⟨10, 20, true⟩] 0 5 20
